@@ -18,6 +18,11 @@
   * `Path(system).exists()` in the working directory = an ARBITRARY predicate `pathExists` of the lookup environment
     (C09's model of fill.py).
   * Symmetry filling is the exact model `CijModel/Fill.lean` (run by the driver over ℚ for C08/C09).
+  * "No state outside the objects".  The memo model has per-object state only.  `Generated.State.*` is the inventory, re-taken
+    from EVERY module under cij/ on every run (tools/gens/state_src.py), of what could carry state across objects and
+    calls: module-level and class-level mutable bindings, statements that write to anything outliving a call, mutable default
+    arguments, caching decorators, `id(…)` keys.  `c14_shared_objects_known` … `c14_no_hidden_state` pin it to what the
+    model assumes: four constant tables, never written after import.
 
   WHAT IS NOT IN ANY THEOREM (only its abstraction above is):
   the interpreter's hash randomisation itself (PYTHONHASHSEED), the file system, BLAS/OpenMP threading and
@@ -37,6 +42,7 @@ import CijProofs.Properties.C09
 import CijProofs.Properties.C15
 import CijProofs.Properties.C16
 import Generated.LazyDeps
+import Generated.StateSpec
 set_option linter.unusedSectionVars false
 namespace Cij.C14
 open Cij Cij.Memo Cij.LazyGraph
@@ -364,6 +370,43 @@ theorem c14_fill_idempotent (env : Env) (sys : String) (P : Params α) (t : Tabl
   fill_fill env sys P t n hrect hnd hrec₁ hres hne₁ hs₁ hv₁ hcons hrec₂ hne₂ hs₂ hfull₂ hatol
 
 end fill
+
+/-! #### no state outside the objects (inventory of the whole package, re-translated on every run) -/
+
+section state
+open Generated.State
+
+/-- **shared_objects_known.**  The only module-level or class-level bindings of possibly mutable objects anywhere in the
+package are the writer-rule table, pint's unit registry and the two Voigt index tables (all four are constant tables:
+`c14_no_shared_writes`).  In particular NO class of the package has a class-level container (results, compliances and
+caches live on the instance, which is what `c14_two_calculators_isolated` assumes). -/
+theorem c14_shared_objects_known :
+    sharedObjects.map (fun r => (r.1, r.2.1, r.2.2.1)) =
+      [("cij/io/output/results_writer.py", "<module>", "DEFAULT_WRITER_RULES"),
+       ("cij/util/units.py", "<module>", "units"),
+       ("cij/util/voigt.py", "<module>", "VOIGT_TO_STANDARD"),
+       ("cij/util/voigt.py", "<module>", "STANDARD_TO_VOIGT")] := by decide +kernel
+
+/-- **no_shared_writes.**  No function or method of the package contains a statement that assigns into, deletes from or
+calls a mutating method on an object reachable from a module-level name, a class (`cls.x = …`, `type(self).x`,
+`self.__class__`), a function object or an imported module's settings (`pandas.set_option`, `numpy.seterr`,
+`os.environ`, `os.chdir`, `random.seed` …), and none declares `global`/`nonlocal`. -/
+theorem c14_no_shared_writes :
+    sharedWrites.filter (fun r => r.2.1 != "<module>") = [] := by decide +kernel
+
+/-- **import_time_statements_known.**  Statements executed at import time other than imports, definitions and bindings occur
+only in the three entry-point modules (reading `version.py`, registering the click sub-commands, one click display setting):
+importing a sub-command cannot change how another one computes or prints. -/
+theorem c14_import_time_statements_known :
+    ∀ r ∈ sharedWrites, r.2.1 = "<module>" → r.1 ∈ ["cij/__init__.py", "cij/cli/cij.py", "cij/cli/main.py"] := by decide +kernel
+
+/-- **no_hidden_state.**  No mutable default argument, no caching decorator (`lru_cache`, `cache`, `cached_property`, … — only
+`property`, `classmethod`, `staticmethod`, `LazyProperty` and click decorators occur), no `id(…)`-keyed table, in any of the
+modules scanned (all of them: the count is part of the statement so an unreadable package cannot pass vacuously). -/
+theorem c14_no_hidden_state :
+    mutableDefaults = [] ∧ otherDecorators = [] ∧ idCalls = [] ∧ 40 ≤ modulesScanned := by decide +kernel
+
+end state
 
 /-! concrete instances, evaluated by the kernel over ℚ.  A small user-supplied relations file keeps the kernel
 evaluation short: `c11 = c22`, `c12` free, every other component `= 0` (a relations file given by path is looked up
